@@ -55,7 +55,7 @@ def run(ctx: Ctx) -> None:
             continue
         want = sorted({e["eventType"] for j in c["pv"] for e in j})
         got = sorted(set(pr["names"]))
-        leaks = [n for n in pr["names"] if PLACEHOLDER.search(n)]
+        leaks = [n for n in pr["names"] if PLACEHOLDER.search(n) and n not in want]
         if leaks:
             lc.report(ctx, c, f"internal placeholders leak into the diagram: {sorted(set(leaks))}")
         elif got != want:
@@ -84,6 +84,6 @@ def replay(data: dict[str, Any]) -> int:
         return 1
     want = sorted({e["eventType"] for j in inp["jobs_pv"] for e in j})
     got = sorted(set(pr["names"]))
-    leaks = sorted({n for n in pr["names"] if PLACEHOLDER.search(n)})
+    leaks = sorted({n for n in pr["names"] if PLACEHOLDER.search(n) and n not in want})
     print("names:", got, "input's:", want, "placeholders:", leaks)
     return 1 if (leaks or got != want) else 0
